@@ -171,13 +171,15 @@ CHECKS = {
         note='The proof is about the specification; the implementation side is metamorphic exploration + C01.'),
     'C08': dict(
         technique='Lean 4 proof (soundness of the per-variable choice object and flag logic of the loop-mode model) + Lean oracle (calculus with per-cell failure) on real loop-mode results + differential correspondence',
-        text='Proved on the model of get_result / maybe_result: every vector accepted by the choice object reported for a '
+        text='Proved on the model, against the calculus itself (loop_mode_bound_is_a_valid_derivation, for loops of any '
+             'nesting): a choice reported for a variable is one at which the derivation of Spec.semI (the calculus with failure '
+             'recorded per cell) is failure-free for the variable and every variable with a non-zero path into it, and the '
+             'column the bound is read from is the calculus column; the same for partial results (maybe_result). At value level: every vector accepted by the choice object reported for a '
              'variable keeps the column of that variable AND the columns of all variables with a flow into it free of '
              'infinity (reported_choices_valid_for_dependencies; the loop relation is transitively closed, so these are all '
              'its sources), flags are nested (linear => weak => polynomial), unbounded means all false, a bounded variable '
-             'carries a non-infinite choice object. The main clause against the calculus itself (a reported choice at which '
-             'the derivation is failure-free for the variable and all its ancestors, bound = that column, class = largest '
-             'coefficient) is decided every run by the Lean predicate check.C08 on the real LoopAnalysis results over all 3^k '
+             'carries a non-infinite choice object. The same clause (plus bound = that column, class = largest coefficient) is '
+             'decided every run on the REAL LoopAnalysis results by the Lean predicate check.C08 over all 3^k '
              'choices with Spec.semI as oracle; the model of inspect is diffed (flags, accepted sets). The former known '
              'finding (dependency ignored) is repaired.',
         design_ref='DESIGN.md §5 C08, §10.2',
